@@ -78,6 +78,7 @@ type Engine struct {
 	assumes   []string
 	depthNow  int
 	nPoison   int
+	varAlpha  map[int][]uint64 // inputs drawn as selectors of a small alphabet: index -> letters
 	splitRet  bool
 	tValues   time.Duration
 	nValues   int
@@ -666,7 +667,7 @@ func (e *Engine) mergeableResult(a, b Value) bool {
 		}
 	case MapV:
 		y, ok := b.(MapV)
-		return ok && x == y
+		return ok && (x.obj == y.obj || x.obj == 0 || y.obj == 0)
 	case ChanV:
 		y, ok := b.(ChanV)
 		return ok && x == y
